@@ -135,12 +135,15 @@ type stored struct {
 // ScriptApp is a thin deterministic BlockChainApp: empty blocks, an in-memory block store, a fixed validator list
 // (or a generated per-height update), and a record of every commit.
 type ScriptApp struct {
-	mu      sync.Mutex
-	blocks  map[uint64]*stored
-	height  uint64
-	Vals    func(height uint64) []*types.Validator
-	Commits []CommitRec
-	Salt    uint64 // makes blocks of different proposers/nodes differ
+	mu     sync.Mutex
+	blocks map[uint64]*stored
+	height uint64
+	Vals   func(height uint64) []*types.Validator
+	// RecoverVals, if set, is the recover validator set (consensus switches to it when a height stays undecided for
+	// timeoutRecover); nil = the regular set
+	RecoverVals func(height uint64) []*types.Validator
+	Commits     []CommitRec
+	Salt        uint64 // makes blocks of different proposers/nodes differ
 	// CheckHook, if set, can veto blocks (used by tests of the application check)
 	CheckHook func(*types.Block) bool
 }
@@ -163,6 +166,7 @@ func (a *ScriptApp) get(h uint64) *stored {
 	defer a.mu.Unlock()
 	return a.blocks[h]
 }
+
 // Prune forgets what BlockStore.DeleteHistoricalData(keep) deletes: every block (meta, parts, commits) of a height
 // <= Height()-keep.
 func (a *ScriptApp) Prune(keep uint64) (deleted int) {
@@ -210,9 +214,14 @@ func (a *ScriptApp) LoadSeenCommit(h uint64) *types.Commit {
 	}
 	return nil
 }
-func (a *ScriptApp) GetValidators(h uint64) []*types.Validator        { return a.Vals(h) }
-func (a *ScriptApp) GetRecoverValidators(h uint64) []*types.Validator { return a.Vals(h) }
-func (a *ScriptApp) SetLastChangedVals(uint64, []*types.Validator)    {}
+func (a *ScriptApp) GetValidators(h uint64) []*types.Validator { return a.Vals(h) }
+func (a *ScriptApp) GetRecoverValidators(h uint64) []*types.Validator {
+	if a.RecoverVals != nil {
+		return a.RecoverVals(h)
+	}
+	return a.Vals(h)
+}
+func (a *ScriptApp) SetLastChangedVals(uint64, []*types.Validator) {}
 
 func (a *ScriptApp) CreateBlock(height uint64, maxTxs int, gasLimit uint64, timeUnix uint64) *types.Block {
 	prev := a.get(height - 1)
@@ -447,6 +456,15 @@ func (n *Net) Deliver(nd *Node, k int) {
 	m := n.Pool[k]
 	rec := nd.CS.VerifDeliver(m.Msg, fmt.Sprintf("peer-%d", m.From))
 	n.after(nd, rec, fmt.Sprintf("delivery of message %d", k))
+}
+
+// RecoverTimeout lets the node's recover timer expire (as if timeoutRecover had passed since the height started).
+func (n *Net) RecoverTimeout(nd *Node) {
+	if nd.Crashed != nil {
+		return
+	}
+	rec := nd.CS.VerifRecoverTimeout()
+	n.after(nd, rec, "recover timer")
 }
 
 // FireTimeout fires the j-th timeout the node ever scheduled (stale ones included).
